@@ -39,35 +39,53 @@ impl Obj for UnknownAttributes {
     }
 }
 
+fn vkey(v: i64) -> stun_rs::HMACKey {
+    stun_rs::HMACKey::new_short_term(format!("values-key-{}", v)).expect("key")
+}
+
+/// 10 * type + version of an attribute held by a StunAttributes (types: 1 SOFTWARE, 2 USERNAME,
+/// 3 MESSAGE-INTEGRITY, 4 MESSAGE-INTEGRITY-SHA256, 5 FINGERPRINT)
+fn code_of(a: &StunAttribute) -> i64 {
+    use stun_rs::attributes::stun::{MessageIntegrity, MessageIntegritySha256};
+    match a {
+        StunAttribute::Software(s) => 10 + s.as_str()[1..].parse::<i64>().unwrap_or(0),
+        StunAttribute::UserName(u) => 20 + u.as_str()[1..].parse::<i64>().unwrap_or(0),
+        StunAttribute::MessageIntegrity(m) => 30 + (0..10).find(|v| *m == MessageIntegrity::new(vkey(*v))).unwrap_or(-32),
+        StunAttribute::MessageIntegritySha256(m) => 40 + (0..10).find(|v| *m == MessageIntegritySha256::new(vkey(*v))).unwrap_or(-42),
+        StunAttribute::Fingerprint(_) => 50,
+        _ => -2,
+    }
+}
+
 impl Obj for StunAttributes {
     fn new() -> Self { StunAttributes::default() }
     fn add(&mut self, x: i64) {
+        use stun_rs::attributes::stun::{Fingerprint, MessageIntegrity, MessageIntegritySha256};
         match x / 10 {
             1 => StunAttributes::add(self, Software::new(format!("v{}", x % 10)).unwrap()),
+            3 => StunAttributes::add(self, MessageIntegrity::new(vkey(x % 10))),
+            4 => StunAttributes::add(self, MessageIntegritySha256::new(vkey(x % 10))),
+            5 => StunAttributes::add(self, Fingerprint::default()),
             _ => StunAttributes::add(self, UserName::new(format!("u{}", x % 10)).unwrap()),
         }
     }
     fn remove(&mut self, t: i64) {
+        use stun_rs::attributes::stun::{Fingerprint, MessageIntegrity, MessageIntegritySha256};
         match t {
             1 => { StunAttributes::remove::<Software>(self); }
+            3 => { StunAttributes::remove::<MessageIntegrity>(self); }
+            4 => { StunAttributes::remove::<MessageIntegritySha256>(self); }
+            5 => { StunAttributes::remove::<Fingerprint>(self); }
             _ => { StunAttributes::remove::<UserName>(self); }
         }
     }
     fn read(&self) -> Vec<i64> {
         let v: Vec<StunAttribute> = self.clone().into();
-        v.iter().map(|a| match a {
-            StunAttribute::Software(s) => 10 + s.as_str()[1..].parse::<i64>().unwrap_or(0),
-            StunAttribute::UserName(u) => 20 + u.as_str()[1..].parse::<i64>().unwrap_or(0),
-            _ => -2,
-        }).collect()
+        v.iter().map(code_of).collect()
     }
     fn take(self) -> Vec<i64> {
         let v: Vec<StunAttribute> = self.into();
-        v.iter().map(|a| match a {
-            StunAttribute::Software(s) => 10 + s.as_str()[1..].parse::<i64>().unwrap_or(0),
-            StunAttribute::UserName(u) => 20 + u.as_str()[1..].parse::<i64>().unwrap_or(0),
-            _ => -2,
-        }).collect()
+        v.iter().map(code_of).collect()
     }
 }
 
